@@ -228,6 +228,8 @@ func execute(x *explore.Exec, sc *Scn, b *built) {
 	P := payload(sc.Payload)
 	stream := append(append([]byte(nil), hdr...), P...)
 	conn := hm.NewSConn(x, stream, true)
+	// the last bytes may arrive together with end-of-stream (quick: short payloads only)
+	conn.EOFWithData = sc.Payload <= 1 || thoroughTier
 	peer, _ := net.ResolveTCPAddr("tcp", sc.Peer)
 	conn.Remote = peer
 	if len(stream) > 40 {
@@ -363,7 +365,10 @@ func scenarios(tier string, yield func(any) bool) {
 	}
 }
 
+var thoroughTier bool
+
 func bounds(tier string, sc *Scn) explore.Bounds {
+	thoroughTier = tier == "thorough"
 	b := explore.DefaultBounds(1)
 	hl := len(sc.H.Encode())
 	switch {
